@@ -1297,8 +1297,15 @@ class Compiler:
         fallback_body = self.visit(node.fallback)
         self._leave_assignment((node.name, ))
 
+        # The failure may have come out of a macro call, before which the
+        # token is reset: then there is no position to report here.  The
+        # failure is handled at this point, so the sites recorded while
+        # it propagated must not show up in a later, unrelated error.
         error_assignment = template(
-            "econtext[key] = cls(__exc, __tokens[__token][1:3])\n"
+            "econtext[key] = cls(__exc, "
+            "__tokens[__token][1:3] if __token is not None "
+            "else (None, None))\n"
+            "rcontext.pop('__error__', None)\n"
             "if handler is not None: handler(__exc)",
             cls=ErrorInfo,
             handler=load("on_error_handler"),
